@@ -146,7 +146,11 @@ func (s *queueSUT) RandomStimulus(r *rand.Rand) core.Ev {
 	for tries := 0; tries < 100; tries++ {
 		switch c := r.Intn(10); {
 		case c < 4 && s.n < s.max:
-			return core.Ev{"op": "Add", "t": 1 + r.Intn(4)}
+			t := 1 + r.Intn(4)
+			if len(idle) == 0 && t > s.lastDue {
+				t = 1 + r.Intn(s.lastDue) // two blocked pollers: which of them takes an element that is not due could not be observed
+			}
+			return core.Ev{"op": "Add", "t": t}
 		case c < 7 && len(idle) > 0:
 			return core.Ev{"op": "Poll", "th": idle[r.Intn(len(idle))], "w": r.Intn(2) == 0}
 		case c < 9 && s.n > 0:
